@@ -25,7 +25,7 @@ type c11conn struct {
 	stanzas int    // inbound stanzas sent once established
 }
 
-var c11resumeAns = []string{"resumed-same", "resumed-other", "failed", "failed-known-condition", "unexpected", "close"}
+var c11resumeAns = []string{"resumed-same", "resumed-other", "failed", "failed-known-condition", "failed-no-condition", "unexpected", "close"}
 var c11enableAns = []string{"enabled-resume-true", "enabled-resume-false", "failed", "unexpected", "close"}
 
 func c11queue(cl *Client) string {
